@@ -530,6 +530,25 @@ func run(id, tier string) int {
 				meta, _ := json.Marshal(metaFor(id, r, v.Fingerprint, tier, seed))
 				os.WriteFile(strings.TrimSuffix(replayPath, filepath.Ext(replayPath))+".meta.json", meta, 0o644)
 				viols = append(viols, viol{v.Fingerprint, v.Message, replayPath})
+			} else if lp, where := libraryPanic(r.out); lp && !r.timedOut && !bytes.Contains(r.out, []byte("VERIF-INFRA")) {
+				// the library itself panicked while serving a generated request (innermost non-runtime frame is fosite's,
+				// not the harness'): whatever the property demands of that request, it was not delivered
+				os.MkdirAll(repDir, 0o755)
+				fp := id + "/library-panic"
+				base := fmt.Sprintf("%s-%s-seed%d", r.job.Test, sanitize(fp), r.seed)
+				txt := filepath.Join(repDir, base+".txt")
+				os.WriteFile(txt, r.out, 0o644)
+				replayPath := txt
+				if r.failfile != "" {
+					if fb, err := os.ReadFile(r.failfile); err == nil {
+						ff := filepath.Join(repDir, base+".fail")
+						os.WriteFile(ff, fb, 0o644)
+						replayPath = ff
+					}
+				}
+				meta, _ := json.Marshal(metaFor(id, r, fp, tier, seed))
+				os.WriteFile(strings.TrimSuffix(replayPath, filepath.Ext(replayPath))+".meta.json", meta, 0o644)
+				viols = append(viols, viol{fp, "ory/fosite panicked while serving a generated request: " + where, replayPath})
 			} else {
 				why := "exit " + strconv.Itoa(r.exit)
 				if r.timedOut {
@@ -621,6 +640,44 @@ func run(id, tier string) int {
 }
 
 // raceExcerpt returns the first race report (or runtime fatal error) of a shard's output.
+// libraryPanic reports whether the output shows a panic whose innermost frame outside the Go runtime and the module
+// cache belongs to the fosite tree under test (and not to the harness). Understands rapid's "Traceback:" block and the
+// runtime's own "goroutine N [running]:" dump.
+func libraryPanic(out []byte) (bool, string) {
+	s := string(out)
+	i := strings.Index(s, "[rapid] panic after")
+	if i < 0 {
+		i = strings.Index(s, "\npanic: ")
+	}
+	if i < 0 {
+		return false, ""
+	}
+	lines := strings.Split(s[i:], "\n")
+	msg := strings.TrimSpace(lines[0])
+	if len(msg) > 300 {
+		msg = msg[:300]
+	}
+	for _, l := range lines[1:] {
+		t := strings.TrimSpace(l)
+		if t == "" || strings.HasPrefix(t, "To reproduce") || strings.HasPrefix(t, "Traceback") || strings.HasPrefix(t, "goroutine ") || strings.HasPrefix(t, "[signal") {
+			continue
+		}
+		if strings.HasPrefix(t, "Failed test output") {
+			break
+		}
+		if strings.Contains(t, "/pkg/mod/") || strings.Contains(t, " in runtime.") || strings.HasPrefix(t, "runtime.") || strings.Contains(t, "/src/runtime/") || strings.HasPrefix(t, "panic(") || strings.Contains(t, "/src/testing/") || strings.HasPrefix(t, "testing.") {
+			continue
+		}
+		if strings.Contains(t, "verifharness/") || strings.Contains(t, "/harness/") {
+			return false, ""
+		}
+		if strings.Contains(t, "github.com/ory/fosite") || strings.Contains(t, repoDir()+"/") {
+			return true, msg + " at " + t
+		}
+	}
+	return false, ""
+}
+
 func raceExcerpt(out []byte) string {
 	s := string(out)
 	i := strings.Index(s, "WARNING: DATA RACE")
@@ -798,6 +855,10 @@ func replay(id, path string) int {
 	if err != nil {
 		if bytes.Contains(out, []byte("VERIF-VIOLATION")) {
 			fmt.Printf("\nVIOLATION property=%s replay=%s\n", id, path)
+			return 1
+		}
+		if lp, where := libraryPanic(out); lp && !bytes.Contains(out, []byte("VERIF-INFRA")) {
+			fmt.Printf("\n%s\n\nVIOLATION property=%s replay=%s\n", where, id, path)
 			return 1
 		}
 		return 2
